@@ -743,7 +743,7 @@ def mutate(draw, spec, t, n=None, tags=False, kinds=None):
         opts = ['replace_scalar', 'swap_kind']
         if sub[0] == 'm':
             opts += ['drop_key', 'dup_key', 'rename_key', 'dash_key', 'add_key',
-                     'add_key', 'drop_key']
+                     'add_key', 'drop_key', 'merge_split']
         if sub[0] == 'q':
             opts += ['add_item', 'drop_item']
         if sub[0] == 's':
@@ -775,6 +775,22 @@ def mutate(draw, spec, t, n=None, tags=False, kinds=None):
             k = new[1][i][0]
             if k[0] == 's':
                 k[1] = k[1].replace('_', '-')
+        elif op == 'merge_split' and new[1]:
+            # move some pairs into a YAML merge key: {<<: {moved...}, rest...}
+            k = draw(st.integers(1, len(new[1])))
+            idx = draw(st.lists(st.integers(0, len(new[1]) - 1), min_size=k, max_size=k,
+                                unique=True))
+            moved = [copy.deepcopy(new[1][i]) for i in sorted(idx)]
+            if draw(st.booleans()):
+                j = draw(st.integers(0, len(moved) - 1))
+                v = moved[j][1]
+                if v[0] == 's' and not v[2] and v[1].lstrip('-').isdigit() and draw(st.booleans()):
+                    # a bool where an int was: isinstance(True, int) holds in Python
+                    moved[j][1] = T.S(draw(st.sampled_from(['true', 'false'])))
+                else:
+                    moved[j][1] = draw(scalar_trees(spec))
+            rest = [pr for i, pr in enumerate(new[1]) if i not in idx]
+            new[1] = [[T.S('<<'), T.M(moved)]] + rest
         elif op == 'add_key':
             new[1].insert(draw(st.integers(0, len(new[1]))),
                           [T.S(draw(st.sampled_from(keys + ['zz']))),
@@ -813,3 +829,46 @@ def doc_for(draw, spec, tags=False, hard=False, mutations=True):
         t, ops = draw(mutate(spec, t, tags=True, kinds=['tag']))
         origin = 'random+tag'
     return t, origin
+
+
+@st.composite
+def share(draw, t, groups=None):
+    """Introduce 1-3 anchor/alias pairs into tree t: either two structurally
+    equal subtrees are shared, or a subtree is referenced from another position
+    (so that one node lands at positions of different declared types)."""
+    info = []
+    for gi in range(draw(st.integers(1, 3)) if groups is None else groups):
+        subs = [(p, s) for p, s in T.subtrees(t) if p and s[0] in 'sqm'
+                and T.get_at(t, p[:-1])[0] != '&']
+        if len(subs) < 2:
+            break
+        mode = draw(st.sampled_from(['equal', 'copy', 'copy', 'copy_scalar']))
+        name = 'n%d' % gi
+        if mode == 'equal':
+            groups_ = {}
+            for idx, (p, s) in enumerate(subs):
+                groups_.setdefault(repr(s), []).append(idx)
+            cands = [g for g in groups_.values() if len(g) >= 2]
+            if not cands:
+                mode = 'copy'
+            else:
+                g = draw(st.sampled_from(cands))
+                i, j = g[0], draw(st.sampled_from(g[1:]))
+        if mode == 'copy_scalar':
+            # values only (not keys), scalars only
+            sc = [k for k, (p, s) in enumerate(subs) if s[0] == 's' and p[-1] != 0]
+            if len(sc) >= 2:
+                i, j = sorted(draw(st.lists(st.sampled_from(sc), min_size=2, max_size=2,
+                                            unique=True)))
+            else:
+                mode = 'copy'
+        if mode == 'copy':
+            i = draw(st.integers(0, len(subs) - 2))
+            j = draw(st.integers(i + 1, len(subs) - 1))
+        (p, s), (q, s2) = subs[i], subs[j]
+        if q[:len(p)] == p or '&' in repr(s) or '*' in repr(s) or '*' in repr(s2) or '&' in repr(s2):
+            continue
+        t = T.set_at(t, q, ['*', name])
+        t = T.set_at(t, p, ['&', name, s])
+        info.append({'mode': mode, 'kind': s[0], 'from': list(p), 'to': list(q)})
+    return t, info
